@@ -13,7 +13,8 @@ Model level (transliteration `Model/C08Msp.lean` of the C++):
   * `refinement_correct`, `refinement_correct_lists` — ALL INPUTS: the transliterated halving refinement succeeds (no
                                                out-of-range read, no top() of an empty queue) and returns THE partition
                                                (loop invariant `Inv`, Proofs/C08Inv*.lean … C08Correct.lean)
-Only `multisequence_selection`'s own loop is still OPEN (see the end of the file).
+  * `selection_model_correct`                 — ALL INPUTS: the model of multisequence_selection succeeds and returns a value
+                                               equivalent to the element at the rank and its offset among the equivalents
 -/
 import TlxVerif.Proofs.C08Spec
 import TlxVerif.Proofs.C08Checker
@@ -21,6 +22,7 @@ import TlxVerif.Proofs.C08Exists
 import TlxVerif.Proofs.C08Select
 import TlxVerif.Proofs.C08Model
 import TlxVerif.Proofs.C08Correct
+import TlxVerif.Proofs.C08SelCorrect
 import TlxVerif.Model.C08Msp
 namespace TlxVerif.C08
 
@@ -172,11 +174,16 @@ theorem refinement_correct_lists {lt : Int → Int → Bool} (hlt : StrictWeak l
 /-- the invariant is not vacuous: it holds (evaluated by the kernel) along a concrete run with ties -/
 example : checkRun ⟨Cmp.lt.fn, #[#[1, 2, 2, 2], #[1, 1], #[0, 2, 5]]⟩ .partition 4 = true := by decide +kernel
 
--- OPEN: selection_correct — `selectionM` itself returns an `IsSelection` for all inputs.  Its loop is the same
---   refinement with value-only comparisons (`comp(middle, *lmax)`, strict `maxleft` rule); the invariant is `Inv`
---   with the weak validity "no left edge sample greater than a right edge sample" (evaluated by `checkRun … .selection`
---   on every compared run) and the proofs of Proofs/C08Inv*.lean carry over with `Le` on values instead of
---   `Before`; together with `selection_characterised` this gives the statement.  Not carried out; checked by the
---   harness oracle (4 M exhaustive cases), the executable invariant and the correspondence.
+/-- **Correctness of `multisequence_selection` (model) for all inputs** — closes the former OPEN item
+`selection_correct`.  The same refinement loop with value-only comparisons maintains the invariant `Inv` for the
+value order (no first right sample smaller than a last left sample); at stride 1 this is a weak partition at the
+exact rank, the final scan returns a value-smallest right edge, and `selection_characterised` turns that into
+the specification: `#{x < v} ≤ rank < #{x ≤ v}` and `offset = rank − #{x < v}` (≥ 0). -/
+theorem selection_model_correct {c : Ctx} (hg : Good c) {rank : Nat} (hr : rank < totalLen c) :
+    ∃ v off tr, runM (selectionM c rank) = .ok ((v, off), tr) ∧ 0 ≤ off ∧
+      IsSelection c.lt (runsL c) rank v off.toNat :=
+  selection_correct hg hr
+
+example : checkRun ⟨Cmp.lt.fn, #[#[1, 2, 2, 2], #[1, 1], #[0, 2, 5]]⟩ .selection 4 = true := by decide +kernel
 
 end TlxVerif.C08
